@@ -257,7 +257,7 @@ Result exec(const Plan& pl) {
     const int tsan0 = g_tsan_reports.load();
     SimThreads st;
     st.configure(pl, nthr);
-    constexpr uint64_t THREAD_EDGE_BUDGET = 500000000ull;   // a thread of this engine executes ~1e5 edges
+    constexpr uint64_t THREAD_EDGE_BUDGET = 50000000ull;   // a thread of this engine executes ~1e5 edges
     st.run([&](int me) {
         sim::set_edge_budget(THREAD_EDGE_BUDGET);
         std::vector<double> pre;
